@@ -11,22 +11,22 @@ def needs(pid, tier):
     table = {
         'C02': (['ws-default'] + (['logos-forbid'] if t else []), gen, False),
         'C03': (['ws-default'], gen, False),
-        'C04': (['ws-default'] + (['logos-release', 'logos-forbid'] if t else []), [], t),
-        'C05': (['ws-default', 'logos-forbid'] + (['logos-release'] if t else []), GENFF if t else GENQ, t),
+        'C04': (['fixture-cg', 'ws-default'] + (['logos-release', 'logos-forbid'] if t else []), [], t),
+        'C05': (['fixture-rt', 'ws-default', 'logos-forbid'] + (['logos-release'] if t else []), GENFF if t else GENQ, t),
         'C06': ([], gen, False),
         'C07': (['ws-default'], gen, False),
-        'C08': (['ws-default'], [], False),
-        'C09': (['ws-default'], [], False),
-        'C10': (['ws-default'] + (['codegen-sm'] if t else []), gen, False),
-        'C11': (['ws-default'], gen, False),
-        'C12': (['ws-default'], gen, False),
-        'C13': (['ws-default'] + (['logos-forbid'] if t else []), gen, False),
-        'C14': (['ws-default', 'logos-forbid'] + (['logos-release'] if t else []), [], True),
-        'C15': (['ws-default', 'logos-release'] + (['logos-forbid'] if t else []), [], t),
-        'C16': (['ws-default', 'fixture'] + (['codegen-sm'] if t else []), [], False),
-        'C17': (['ws-default', 'fixture'], [], False),
-        'C18': (['ws-default'], gen, False),
-        'C19': (['ws-default'] + (['codegen-sm'] if t else []), [], False),
+        'C08': (['fixture-cg', 'ws-default'], [], False),
+        'C09': (['fixture-cg', 'ws-default'], [], False),
+        'C10': (['fixture-cg', 'ws-default'] + (['codegen-sm'] if t else []), gen, False),
+        'C11': (['fixture-cg', 'ws-default'], gen, False),
+        'C12': (['fixture-cg', 'ws-default'], gen, False),
+        'C13': (['fixture-rt', 'ws-default'] + (['logos-forbid'] if t else []), gen, False),
+        'C14': (['fixture-rt', 'ws-default', 'logos-forbid'] + (['logos-release'] if t else []), [], True),
+        'C15': (['fixture-rt', 'ws-default', 'logos-release'] + (['logos-forbid'] if t else []), [], t),
+        'C16': (['fixture-cg', 'ws-default', 'fixture'] + (['codegen-sm'] if t else []), [], False),
+        'C17': (['fixture-cg', 'ws-default', 'fixture'], [], False),
+        'C18': (['fixture-cg', 'ws-default'], gen, False),
+        'C19': (['fixture-cg', 'ws-default'] + (['codegen-sm'] if t else []), [], False),
         'C20': (['ws-default'], gen, False),
     }
     return table.get(pid, ([], [], False))
